@@ -70,12 +70,52 @@ func c05Run(r *Run) {
 		}
 		return nil
 	}
+	// the functions that implement the try statement: its own methods and whatever they reach inside
+	// the package through static calls and method values (helpers, a per-execution state struct)
 	methods := map[*types.Func]*ast.FuncDecl{}
-	for _, fd := range funcDecls(npkg) {
-		if recvTypeName(fd) == "TryStatement" {
-			if o, ok := info.Defs[fd.Name].(*types.Func); ok {
-				methods[o] = fd
+	{
+		var work []*ast.FuncDecl
+		add := func(f *types.Func) {
+			if f == nil || f.Pkg() != npkg.Types || methods[f] != nil {
+				return
 			}
+			fd := declOf(npkg, f)
+			if fd == nil || fd.Body == nil {
+				return
+			}
+			// other AST nodes' evaluation entries are not part of this statement
+			if fd.Recv != nil && recvTypeName(fd) != "TryStatement" {
+				switch fd.Name.Name {
+				case "GetValue", "SetValue", "Call":
+					return
+				}
+			}
+			methods[f] = fd
+			work = append(work, fd)
+		}
+		for _, fd := range funcDecls(npkg) {
+			if recvTypeName(fd) == "TryStatement" {
+				if o, ok := info.Defs[fd.Name].(*types.Func); ok {
+					add(o)
+				}
+			}
+		}
+		for len(work) > 0 && len(methods) < 40 {
+			fd := work[len(work)-1]
+			work = work[:len(work)-1]
+			ast.Inspect(fd.Body, func(n ast.Node) bool {
+				switch x := n.(type) {
+				case *ast.Ident:
+					if f, ok := info.Uses[x].(*types.Func); ok {
+						add(f)
+					}
+				case *ast.SelectorExpr:
+					if f, ok := info.Uses[x.Sel].(*types.Func); ok {
+						add(f)
+					}
+				}
+				return true
+			})
 		}
 	}
 	// ---- FINALLY ----
@@ -287,7 +327,7 @@ func c05Run(r *Run) {
 	var entry *ast.FuncDecl
 	var entryObj *types.Func
 	for fn, fd := range methods {
-		if fn.Name() == "GetValue" {
+		if fn.Name() == "GetValue" && recvTypeName(fd) == "TryStatement" {
 			entry, entryObj = fd, fn
 		}
 	}
@@ -369,10 +409,29 @@ func c05Run(r *Run) {
 		aliases := map[types.Object]bool{}
 		if ctlParam != nil {
 			aliases[ctlParam] = true
+		}
+		// a local that holds the pending control of a per-execution state (thrown := r.pending), taken
+		// before the dispatch loop, stands for the thrown control as a parameter does
+		ast.Inspect(catchFn.Body, func(n ast.Node) bool {
+			if n == ast.Node(catchRange) {
+				return false
+			}
+			if as, ok := n.(*ast.AssignStmt); ok && len(as.Rhs) == 1 && len(as.Lhs) == 1 && as.Tok == token.DEFINE && as.Pos() < catchRange.Pos() {
+				if se, ok := ast.Unparen(as.Rhs[0]).(*ast.SelectorExpr); ok && isNamed(info.TypeOf(se), modPath+"/data", "Control") {
+					if sel, ok := info.Selections[se]; ok && sel.Kind() == types.FieldVal {
+						if l, ok := as.Lhs[0].(*ast.Ident); ok {
+							aliases[info.Defs[l]] = true
+						}
+					}
+				}
+			}
+			return true
+		})
+		for pass := 0; pass < 2; pass++ {
 			ast.Inspect(catchFn.Body, func(n ast.Node) bool {
 				if as, ok := n.(*ast.AssignStmt); ok && len(as.Rhs) == 1 && as.Tok == token.DEFINE {
 					if ta, ok := ast.Unparen(as.Rhs[0]).(*ast.TypeAssertExpr); ok {
-						if id, ok := ast.Unparen(ta.X).(*ast.Ident); ok && info.Uses[id] == ctlParam {
+						if id, ok := ast.Unparen(ta.X).(*ast.Ident); ok && aliases[info.Uses[id]] {
 							if l, ok := as.Lhs[0].(*ast.Ident); ok {
 								aliases[info.Defs[l]] = true
 							}
